@@ -211,6 +211,7 @@ def mode_formulas_unit(u, res):
     return res
 
 
+@symnp.outside_session
 def replay_mode(name, T, f, classical):
     import ctypes
     import phonopy.phonon.thermal_properties as tpm
@@ -225,6 +226,32 @@ def replay_mode(name, T, f, classical):
 
 
 # ------------------------------------------------------------------ kernel loop
+@symnp.outside_session
+def replay_kernel(classical, shape, w):
+    """concrete: the compiled phpy_get_thermal_properties against sum_q w sum_bands [T>0, f>cutoff] mode function (the
+    per-mode C functions, themselves compared with the documented formulas in mode_formulas) + the initial content"""
+    ctx = harness.setup()
+    import phonopy.phonon.thermal_properties as tpm
+    nq, nb, nt = shape
+    rng = np.random.default_rng(6)
+    worst = 0.0
+    for trial in range(4):
+        T = np.array([0.0] + list(rng.uniform(50, 900, nt - 1)))
+        f = rng.uniform(-0.01, 0.08, (nq, nb)); cut = 0.005
+        props = rng.uniform(-1, 1, (nt, 3)); p0 = props.copy()
+        ctx.shim.thermal_properties(props, T, f, np.array(w, dtype="int64"), cut, int(classical))
+        want = p0.copy()
+        for i in range(nq):
+            for j in range(nt):
+                for k in range(nb):
+                    if T[j] > 0 and f[i, k] > cut:
+                        want[j, 0] += w[i] * (float(tpm.mode_F(T[j], np.array([f[i, k]]), classical=bool(classical))[0]) - (0 if classical else f[i, k] / 2))
+                        want[j, 1] += w[i] * float(tpm.mode_S(T[j], np.array([f[i, k]]), classical=bool(classical))[0])
+                        want[j, 2] += w[i] * float(tpm.mode_cv(T[j], np.array([f[i, k]]), classical=bool(classical))[0])
+        worst = max(worst, float(np.abs(props - want).max()))
+    return worst > 1e-9, "compiled thermal-properties kernel differs by %.3g from the weighted sum over modes with T > 0 and f > cutoff (classical=%s)" % (worst, classical)
+
+
 def kernel_unit(u, res):
     classical, (nq, nb, nt) = u[1], u[2]
     ctx = harness.setup()
@@ -261,7 +288,11 @@ def kernel_unit(u, res):
             verdict, model = solve(res, "kernel sum T%d prop%d (classical=%d)" % (j, p, classical), A + [a != b], timeout_ms=60000)
             key = "%s:kernel:T%d:prop%d:classical%d:%s" % (PID, j, p, classical, "x".join(map(str, u[2])))
             if verdict == "sat":
-                res.unconfirmed.append({"key": key, "what": "kernel accumulation differs from the documented weighted sum (UF model; no concrete replay)"})
+                ok, what = replay_kernel(classical, (nq, nb, nt), w)
+                (res.violations if ok else res.unconfirmed).append({"key": key, "what": what, "replay": {"unit": [str(x) for x in u]}})
+                bad += 1
+                if bad >= 1:
+                    break
             elif verdict == "unknown":
                 res.notes.append("inconclusive: " + key)
     v2, _ = solve(res, "twin", A + [harness.to_term(out[0]) != props0[0]], record=False)
@@ -409,6 +440,7 @@ def _oracle(fsym, anchors, sel, weights, temps, pretend_real, classical, cut_ev,
     return out
 
 
+@symnp.outside_session
 def replay_wrapper(tpm, nu, weights, temps, lang, pretend_real, bi, classical, cutoff, ti, p):
     mesh = FakeMesh(np.array(nu, dtype="double"), weights)
     tp = tpm.ThermalProperties(mesh, cutoff_frequency=cutoff, pretend_real=pretend_real, band_indices=bi, classical=classical)
@@ -537,6 +569,7 @@ def finite_unit(u, res):
     return res
 
 
+@symnp.outside_session
 def replay_finite(which, T, f, lang="C"):
     import phonopy._phonopy as phonoc
     import phonopy.phonon.thermal_properties as tpm
@@ -622,6 +655,7 @@ def projection_unit(u, res):
     return res
 
 
+@symnp.outside_session
 def replay_projection(which, pretend_real, ev):
     """concrete: projected values against sum |e|^2 x mode value; for ev None random unitary eigenvectors are used"""
     import warnings
